@@ -10,7 +10,7 @@ Open Scope N_scope.
 
 Definition max_compression_offset : N := 16384.   (* maxCompressionOffset = 2 << 13 *)
 Definition max_name_wire : N := 255.              (* maxDomainNameWireOctets *)
-Definition max_pointers : N := 126.               (* maxCompressionPointers = (255+1)/2 - 2 *)
+Definition max_pointers : N := 127.               (* maxCompressionPointers = (255+1)/2 - 1 *)
 
 (* ---------- UnpackDomainName ---------- *)
 (* every iteration either consumes a label (budget shrinks by >= 2) or follows a
